@@ -3182,6 +3182,13 @@ class Engine:
             # enumerate every permitted call turn the record into a failed obligation)
             self.unmodelled.append('%s.%s' % (_dotted(target) or '<expr>', meth))
             return z3.Const(fresh_name('unmodelled_' + meth), U)
+        if isinstance(recv, str) and not self.c.strings and meth in ('join', 'format', 'strip', 'lstrip', 'rstrip', 'lower', 'upper', 'replace', 'title', 'capitalize'):
+            # a text-building method of a str literal (`' AND '.join(parts)`, `'{}x'.format(a)`) where the contract does not track
+            # text: these methods are pure and total on their str receiver (a non-str argument raises TypeError - not modelled:
+            # the arguments were evaluated above, so their own effects and obligations stand); the text itself is opaque
+            for k in node.keywords:
+                self.ev(k.value, st)
+            return z3.Const(fresh_name('text_' + meth), U)
         raise Undecided('method %s on %r not modelled (line %d)' % (meth, recv, node.lineno))
 
 
